@@ -5,6 +5,8 @@ alive at once (the interleaving of operations on different models is the schedul
 joins / leaves injected. Behind a per-run switch (on in ~15% of runs) components are attached /
 detached WHILE the agent is resident, with or without the manual register / deregister call; the
 divergences this produces on the current tree are the listed known findings F1, F2, F3, F6."""
+import copy
+
 from ECAgent.Core import Agent, AgentNotFoundError, Component, DuplicateAgentError, Environment, Model, System
 from ECAgent.Environments import PositionComponent
 
@@ -26,7 +28,7 @@ COMPONENTS = {"real": ["ECAgent.Core.Environment.add_agent / remove_agent", "Sys
               "stub": ["component classes and agents are harness-defined"]}
 PROBES = ["pool_deleted_and_recreated", "leave_from_middle", "two_models_same_type", "spatial_join_leave", "rejoin",
           "attach_after_leaving", "subclass_component", "resident_touch_run", "manual_register", "reject_join", "reject_leave",
-          "model_completed_then_join_leave", "falsy_component_emptied", "ops_from_inside_a_timestep", "agent_is_an_environment", "agent_class_with_class_components", "deprecated_camelcase_spelling"]
+          "model_completed_then_join_leave", "falsy_component_emptied", "ops_from_inside_a_timestep", "agent_is_an_environment", "agent_class_with_class_components", "deprecated_camelcase_spelling", "component_cloned_from_a_registered_one"]
 TECHNIQUE = "deterministic simulation: seeded join/leave/attach/detach histories interleaved over several live models vs a per-model mirror reference; known-finding classifier for resident attach/detach"
 LEVEL_TEXT = ("Seeded search over join/leave/attach/detach histories on 1-3 live models; after every operation, for every "
               "component type and every model, the exposed listing must be element-wise identical (objects, joining order) to "
@@ -42,8 +44,8 @@ class CA(Component):
     pass
 
 
-class CB(Component):
-    pass
+class CB(Component, __import__("abc").ABC):
+    """A component class whose metaclass is not `type` (abc.ABCMeta): it is a class like any other."""
 
 
 class CC(Component):
@@ -116,7 +118,7 @@ def generate(rng, tier):
         elif r < 0.5:
             ops.append({"m": mi, "op": "leave", "k": k})
         elif r < 0.65:
-            ops.append({"m": mi, "op": "attach", "k": k, "t": rng.randrange(6), "manual": rng.random() < 0.5})
+            ops.append({"m": mi, "op": "attach", "k": k, "t": rng.randrange(6), "manual": rng.random() < 0.5, "clone": rng.random() < 0.3})
         elif r < 0.77:
             ops.append({"m": mi, "op": "detach", "k": k, "t": rng.randrange(6), "manual": rng.choice(["no", "before", "after"])})
         elif r < 0.9:
@@ -290,6 +292,13 @@ def execute(sc, ctx):
             if resident and not touch:
                 return
             c = T(a, mm.model)
+            donors = [mm.agents[j].components[T] for j in mm.residents if j != k and T in mm.agents[j].components]
+            if op.get("clone") and donors and not resident and T is not CF:
+                # offspring inherits a parent's component: a shallow copy of a component that is registered right now,
+                # re-pointed at the new owner - a distinct, well-formed component
+                c = copy.copy(donors[0])
+                c.agent = a
+                ctx.probe("component_cloned_from_a_registered_one")
             ctx.expect_ok("attach", a.add_component, c)
             if T is CD:
                 ctx.probe("subclass_component")
